@@ -63,7 +63,7 @@ pub fn check(mut ctx: Ctx, replay: Option<J>) -> ! {
   if !out.ok {
     tool_error(&format!("Trace_C03 failed: {}", out.error_text));
   }
-  let unspec: i64 = out.counters("UNSPEC").iter().sum();
+  let unspec: i64 = out.counters("UNSPECN").iter().sum();
   for (i, why) in &out.rejects {
     let r = &recs[*i];
     let t = &r["table"];
@@ -75,7 +75,7 @@ pub fn check(mut ctx: Ctx, replay: Option<J>) -> ! {
   let evals: u64 = recs.iter().map(|r| r["table"]["inputs"].as_array().map(|a| a.len() as u64).unwrap_or(0)).sum();
   ctx.cov("tables", json!(recs.len()));
   ctx.cov("evaluations", json!(evals));
-  ctx.cov("distinct_nontrivial", json!(evals - unspec as u64));
+  ctx.cov("distinct_nontrivial", json!(evals.saturating_sub(unspec as u64)));
   ctx.cov("unspecified_cases_accepted", json!(unspec));
   ctx.cov("exhaustive", json!(true));
   ctx.cov("rule", json!("one case = (decision table, input tuple); tables enumerated by TLC exhaustively over small scopes: every input-entry form x every input value (one rule); one numeric input, entries {-, 1, >= 2}, outputs {10, 20, 30}, every rule list up to the bound, every hit policy and aggregator, with/without output values and default; two output components; two inputs. Loaded through DMN XML. Non-trivial = the specification assigns a definite result"));
